@@ -71,7 +71,7 @@ func writeReplay(root, dir, prop string, r *OblResult, cfg *PropConfig) (string,
 			os.WriteFile(qf, []byte(fi.Query), 0o644)
 			ri.QueryFile = qf
 			terms := modelTerms(fi.Query)
-			if m, who := getModel(fi.Query, terms, 10000); m != nil {
+			if m, who := getModel(fi.Query, terms, 3000); m != nil {
 				ri.Model = m
 				ri.ModelSolver = who
 			}
